@@ -99,9 +99,17 @@ fn rewrite(r: &mut Rng, forms: &mut Vec<SX>, files: &mut Vec<(String, String)>, 
                 return None;
             }
             let name = format!("zrw{n}");
-            set_item(forms, fi, ii, a(format!("@{name}")));
+            // every occurrence of the same action in this layer and the following ones is named by
+            // the one alias (an alias shared by several keys is one action object behind the scenes)
+            let mut shared = 0;
+            for (fj, ij) in sites.iter().copied().filter(|(fj, _)| *fj >= fi) {
+                if get_item(forms, fj, ij) == act {
+                    set_item(forms, fj, ij, a(format!("@{name}")));
+                    shared += 1;
+                }
+            }
             forms.insert(fi, l(vec![a("defalias"), a(name), act]));
-            Some("alias")
+            Some(if shared > 1 { "alias-shared" } else { "alias" })
         }
         1 => {
             // a number inside an action -> $var
@@ -245,7 +253,7 @@ impl Prop for C16 {
         "C16"
     }
     fn rule_text(&self) -> String {
-        "case = configuration from the general action grammar + 1-4 random neutral rewrites of it (layer action -> defalias; number -> defvar; action list -> defvar; action -> deftemplate / template-expand / t!, with a parameter and if-equal / if-not-equal guards; top-level form -> include file through the file-provider seam; (platform (linux ...) form) wrapper, also inside an included file; deflayer -> equivalent deflayermap) + one seeded history (gaps around the config's timeouts, repeats, virtual-key operations). Oracle: both texts are accepted or both rejected; the set of intercepted keys is equal; driven by the same history on fresh instances, one after the other, the output traces (tick, kind, key) are identical. non-trivial = both accepted, at least one rewrite applied and output produced; distinct = original x rewritten text hash.".into()
+        "case = configuration from the general action grammar + 1-4 random neutral rewrites of it (layer action -> defalias, one alias for all keys that carry the same action; number -> defvar; action list -> defvar; action -> deftemplate / template-expand / t!, with a parameter and if-equal / if-not-equal guards; top-level form -> include file through the file-provider seam; (platform (linux ...) form) wrapper, also inside an included file; deflayer -> equivalent deflayermap) + one seeded history (gaps around the config's timeouts, repeats, virtual-key operations). Oracle: both texts are accepted or both rejected; the set of intercepted keys is equal; driven by the same history on fresh instances, one after the other, the output traces (tick, kind, key) are identical. non-trivial = both accepted, at least one rewrite applied and output produced; distinct = original x rewritten text hash.".into()
     }
     fn runs(&self, tier: Tier) -> u64 {
         match tier {
@@ -260,6 +268,22 @@ impl Prop for C16 {
         let cfg = spec_text(&spec);
         let mut case = Case { prop: "C16".into(), seed, cfg: cfg.clone(), files: spec.files.clone(), ..Default::default() };
         let mut forms = spec.forms();
+        // sometimes the same (list) action is bound to two or three keys of a layer, so that a
+        // rewrite can name all of them through one alias / variable
+        if r.chance(300) {
+            let sites = layer_sites(&forms);
+            let lists: Vec<(usize, usize)> = sites.iter().copied().filter(|(fi, ii)| get_item(&forms, *fi, *ii).list().is_some()).collect();
+            if let Some((fi, ii)) = r.pick_opt(&lists).copied() {
+                let act = get_item(&forms, fi, ii);
+                let same_layer: Vec<(usize, usize)> = sites.iter().copied().filter(|(fj, ij)| *fj == fi && *ij != ii).collect();
+                for _ in 0..r.range(1, 2) {
+                    if let Some((fj, ij)) = r.pick_opt(&same_layer).copied() {
+                        set_item(&mut forms, fj, ij, act.clone());
+                    }
+                }
+                case.cfg = print_top(&forms);
+            }
+        }
         let mut files = spec.files.clone();
         let mut applied: Vec<&str> = vec![];
         let want = r.range(1, 4);
